@@ -679,6 +679,9 @@ Notes:
 
         # update state from bestSolver
         self._AbstractEnsembleSolver__update_state()
+
+        # save the ensemble (the members write their own state to the same file)
+        self._AbstractSolver__save_state()
         return
 
     def _process_inputs(self, kwds):
